@@ -6,7 +6,7 @@ from hypothesis import strategies as st
 
 from vfw import gen_records, tree, model_classify
 from vfw import classify_common as cc
-from vfw.core import Part, Violation, guarded
+from vfw.core import Part, Violation, Reject, guarded
 from vfw.props.C03 import classify_and_model
 
 LEVEL = 'exploration'
@@ -25,7 +25,7 @@ RULE = (
     'drives get_mystery_jump_mask and get_true_interval_masks directly on '
     'generated boolean vectors; a third runs classify a second time with other '
     'thresholds and requires the tables to describe the classification whose '
-    'thresholds are recorded. Non-trivial: at least one interstorm '
+    'thresholds are recorded; part long_record: one gap-free record of 65,000-140,000 samples (dry spells across sample 65536). Non-trivial: at least one interstorm '
     'interval and one of: an unexplained rise inside a dry spell, an '
     'exact-threshold increment, a dry spell before the first rain, a gap; '
     'distinct = SHA-1 of the case.'
@@ -66,6 +66,46 @@ def verify_flags(t, models):
         raise Violation(sig, 'missing {} extra {}'.format(
             missing[:4], extra[:4]))
     return want_inter
+
+
+@st.composite
+def long_record_cases(draw):
+    """Years of ten-minute data without a gap: 65,000 - 140,000 samples
+    (the sample data have about 20,000), described by a few numbers."""
+    return {'long': {
+        'n': draw(st.sampled_from([65537, 65600, 70000, 66000, 131100])),
+        'period': draw(st.sampled_from([978, 1000, 4100, 5002])),
+        'dt': draw(st.sampled_from([600, 1800, 60])),
+        'thr_units': draw(st.sampled_from([2, 4])),
+        'phase': draw(st.integers(3, 900))}}
+
+
+def expand_long(spec):
+    n, period, dt = spec['n'], spec['period'], spec['dt']
+    thr_units = spec['thr_units']
+    s = 4.0
+    j = (thr_units / 8.0) * 3600.0 / dt
+    rain, z = [], [8 * 400]
+    rise = (period - 2) // 2
+    for k in range(n):
+        pos = (k + spec['phase']) % period
+        # (it still rains in the step after the rise ends, so that no
+        # jump ends on a dry step and the dry spells are interstorms)
+        rain.append(12.5 if pos in (0, 1, 2) else 0.0)
+        z.append(z[-1] + rise if pos in (0, 1) else z[-1] - 1)
+    case = gen_records.assemble(
+        dt, gen_records.T0_BASE, 'UTC', rain, z, 0, [], [], set(), [0.125],
+        s, j, {'gen': 'long', 'thr_units': thr_units})
+    return case
+
+
+def check_long(case):
+    out = check(expand_long(case['long']))
+    if 'has-interstorm' not in out:
+        raise Reject('long record without interstorm intervals')
+    out.add('samples>65536')
+    out.add('nontrivial')
+    return out
 
 
 def check(case):
@@ -227,6 +267,11 @@ PARTS = [
              gen_records.float_records()),
          budget={'quick': 375, 'thorough': 4000},
          describe='flags and interstorm rows against the model automaton'),
+    Part('long_record', check_long,
+         strategy=lambda tier: long_record_cases(),
+         budget={'quick': 1, 'thorough': 2},
+         shards={'quick': 2, 'thorough': 8},
+         describe='one gap-free record of 65,000-140,000 samples'),
     Part('masks', check_masks, strategy=lambda tier: mask_cases(),
          budget={'quick': 250, 'thorough': 5000},
          describe='get_mystery_jump_mask / get_true_interval_masks'),
